@@ -480,6 +480,7 @@ def c09(run):
     from rules import r_misc12 as _m12
     if run.cfg == 'base' or P.has('handle_response'):   # a server-only configuration has no response side
         _m12.run_filter_field_recorded(run, P)   # a duplicated final response of a block-wise upload is filtered: at most one delivery per transfer
+    run.require_count(_m12.run_null_not_wildcard(run, P) >= 1 or run.cfg != 'base', 'R-CMP-BOUND (absent component): no comparison of two optional key strings found in coap_block.c')
     r_elemshift.run(run, P)              # the sorted list of requested Q-Block2 numbers (and the received-block ranges) are edited by whole elements, in the direction the count says
     run.min_instances('R-RELEASE-ONCE', 5)
     run.assumptions = ASSUME_COMMON + ["body integrity, tiling, at-most-once delivery, token hiding and size fitting (arithmetic over runtime lengths and schedules) are NOT decided",
